@@ -221,6 +221,9 @@ def getattr(I, st, v, name):
     if isinstance(v, str):
         yield st, str_method(I, st, v, name)
         return
+    if isinstance(v, (_re.Pattern, _re.Match)):
+        yield st, re_method(I, st, v, name)
+        return
     if isinstance(v, (bytes, bytearray)):
         if name == "join":
             from . import bytesmodel
@@ -817,6 +820,58 @@ def str_method(I, st, s, name):
         yield st, r
 
     return bi("str." + name, fn)
+
+
+# ---- regular expressions: concrete only (pattern, subject and results are concrete strings); the CPython `re`
+# engine is the model.  Anything symbolic is Unsupported.
+import re as _re  # noqa: E402
+
+_RE_METHODS = {"match", "fullmatch", "search", "findall", "sub", "split", "group", "groups", "groupdict", "start", "end", "span"}
+_RE_ATTRS = {"pattern", "groups", "string", "lastindex"}
+
+
+def _re_conc(x):
+    if isinstance(x, (str, int, bool, type(None), _re.Pattern, _re.Match)) and not is_z3(x):
+        return x
+    if isinstance(x, tuple):
+        return tuple(_re_conc(y) for y in x)
+    raise Unsupported("re with a symbolic / non-string argument")
+
+
+def _re_result(st, r):
+    if isinstance(r, list):
+        return st.alloc(ListE([_re_result(st, x) for x in r]))
+    if isinstance(r, dict):
+        return st.alloc(DictE({k: _re_result(st, x) for k, x in r.items()}))
+    if isinstance(r, tuple):
+        return tuple(_re_result(st, x) for x in r)
+    if isinstance(r, (str, int, bool, type(None), _re.Pattern, _re.Match)):
+        return r
+    raise Unsupported("re result %r" % (r,))
+
+
+def re_call(pyfn, label):
+    def fn(I, st, a, k):
+        ca = [_re_conc(x) for x in a]
+        ck = {kk: _re_conc(x) for kk, x in k.items()}
+        try:
+            r = pyfn(*ca, **ck)
+        except Exception as e:  # noqa
+            yield st, exc(type(e).__name__ if type(e).__name__ in ("IndexError", "TypeError", "ValueError") else "ValueError", str(e))
+            return
+        yield st, _re_result(st, r)
+
+    return bi(label, fn)
+
+
+def re_method(I, st, v, name):
+    if isinstance(v, _re.Match) and name in ("group", "groups", "groupdict", "start", "end", "span"):
+        return re_call(_b.getattr(v, name), "re.Match." + name)
+    if isinstance(v, _re.Pattern) and name in ("match", "fullmatch", "search", "findall", "sub", "split"):
+        return re_call(_b.getattr(v, name), "re.Pattern." + name)
+    if name in _RE_ATTRS and not (isinstance(v, _re.Match) and name == "groups"):
+        return _re_result(st, _b.getattr(v, name))
+    raise Unsupported("re attribute " + name)
 
 
 # ============================================================================ builtin classes as callables
@@ -1684,6 +1739,9 @@ def make_ext_modules(I):
     E["functools"] = {"partial": bi("functools.partial", lambda I, st, a, k: iter([(st, Partial(a[0], a[1:], k))])),
                       "lru_cache": bi("functools.lru_cache", lambda I, st, a, k: iter([(st, a[0] if a else Opaque("lru_cache"))]))}
     E["operator"] = {}
+    E["re"] = {n: re_call(_b.getattr(_re, n), "re." + n) for n in ("compile", "match", "fullmatch", "search", "findall", "sub", "split", "escape")}
+    for n in ("IGNORECASE", "I", "MULTILINE", "M", "DOTALL", "S", "VERBOSE", "X"):
+        E["re"][n] = int(_b.getattr(_re, n))
     E["warnings"] = {"warn": bi("warnings.warn", lambda I, st, a, k: iter([(st, None)]))}
 
     from . import npmodel, bytesmodel
